@@ -549,4 +549,136 @@ theorem step_stopInv (c : Cfg) (T I : List Nat) (s : Loop) (a : Act) (s' : Loop)
       exact ⟨by simpa [h3] using hst, by simp, by simpa [h1, h2] using hT, by simpa [h5] using hI, fun _ h => by simp at h⟩
     · simp at hs
 
+/-! ### The batch in flight is private to its sender -/
+
+/-- No action other than the loop goroutine's own `result` changes the batch the loop goroutine has in
+    flight — in particular no `add` (whatever it appends or drops), no `stop` and no drain step. -/
+theorem step_sending_stable (c : Cfg) (s s' : Loop) (a : Act) (e : List Eff) (b : List Nat)
+    (hpc : s.pc = .sending b) (ha : ∀ v, a ≠ .result v) (h : step c s a = some (s', e)) :
+    s'.pc = .sending b := by
+  cases a with
+  | add as =>
+    simp only [step] at h
+    split at h
+    · simp at h
+    · split at h
+      · simp at h; obtain ⟨rfl, _⟩ := h; exact hpc
+      · simp only [Option.some.injEq, Prod.mk.injEq] at h; obtain ⟨rfl, _⟩ := h; exact hpc
+  | wake => simp [step, hpc] at h
+  | exit => simp [step, hpc] at h
+  | take => simp [step, hpc] at h
+  | post => simp [step, hpc] at h
+  | result v => exact absurd rfl (ha v)
+  | stop =>
+    simp only [step] at h
+    split at h
+    · simp at h
+    · split at h
+      · simp at h; obtain ⟨rfl, _⟩ := h; exact hpc
+      · split at h <;>
+        · simp only [Option.some.injEq, Prod.mk.injEq] at h; obtain ⟨rfl, _⟩ := h; exact hpc
+  | dtake =>
+    simp only [step] at h
+    split at h
+    · split at h
+      · simp only [Option.some.injEq, Prod.mk.injEq] at h; obtain ⟨rfl, _⟩ := h; exact hpc
+      · split at h <;>
+        · simp only [Option.some.injEq, Prod.mk.injEq] at h; obtain ⟨rfl, _⟩ := h; exact hpc
+    · simp at h
+  | dresult v =>
+    simp only [step] at h
+    split at h
+    · rename_i b' _
+      simp only [Option.some.injEq, Prod.mk.injEq] at h; obtain ⟨rfl, _⟩ := h
+      have := (outcome_received s b' v).2.2.1
+      simpa [this] using hpc
+    · simp at h
+
+theorem run_sending_stable (c : Cfg) (b : List Nat) : ∀ (tr : List Act) (s s' : Loop),
+    s.pc = .sending b → (∀ v, Act.result v ∉ tr) → run c s tr = some s' → s'.pc = .sending b := by
+  intro tr
+  induction tr with
+  | nil => intro s s' hpc _ h; simp [run] at h; subst h; exact hpc
+  | cons a rest ih =>
+    intro s s' hpc hno h
+    unfold run at h
+    cases hs : step c s a with
+    | none => simp [hs] at h
+    | some r =>
+      obtain ⟨s1, e⟩ := r
+      simp only [hs] at h
+      have ha : ∀ v, a ≠ .result v := fun v hv => hno v (by simp [hv])
+      exact ih s1 s' (step_sending_stable c s s1 a e b hpc ha hs) (fun v hv => hno v (by simp [hv])) h
+
+/-- The same for the batch the draining caller of `stop` has in flight (only its own `dresult` ends it). -/
+theorem step_dsending_stable (c : Cfg) (s s' : Loop) (a : Act) (e : List Eff) (b : List Nat)
+    (hpc : s.dpc = .dsending b) (ha : ∀ v, a ≠ .dresult v) (h : step c s a = some (s', e)) :
+    s'.dpc = .dsending b := by
+  have hmid : s.midStop = true := by simp [Loop.midStop, hpc]
+  cases a with
+  | add as => simp [step, hmid] at h
+  | stop => simp [step, hmid] at h
+  | dtake => simp [step, hpc] at h
+  | dresult v => exact absurd rfl (ha v)
+  | wake =>
+    simp only [step] at h
+    split at h
+    · simp only [Option.some.injEq, Prod.mk.injEq] at h; obtain ⟨rfl, _⟩ := h; exact hpc
+    · simp at h
+  | exit =>
+    simp only [step] at h
+    split at h
+    · simp only [Option.some.injEq, Prod.mk.injEq] at h; obtain ⟨rfl, _⟩ := h; exact hpc
+    · simp at h
+  | post =>
+    simp only [step] at h
+    split at h
+    · simp only [Option.some.injEq, Prod.mk.injEq] at h; obtain ⟨rfl, _⟩ := h; exact hpc
+    · simp at h
+  | take =>
+    simp only [step] at h
+    split at h
+    · split at h <;>
+      · simp only [Option.some.injEq, Prod.mk.injEq] at h; obtain ⟨rfl, _⟩ := h; exact hpc
+    · simp at h
+  | result v =>
+    simp only [step] at h
+    split at h
+    · rename_i b' _
+      simp only [Option.some.injEq, Prod.mk.injEq] at h; obtain ⟨rfl, _⟩ := h
+      have := (outcome_received s b' v).2.2.2
+      simpa [this] using hpc
+    · simp at h
+
+theorem run_dsending_stable (c : Cfg) (b : List Nat) : ∀ (tr : List Act) (s s' : Loop),
+    s.dpc = .dsending b → (∀ v, Act.dresult v ∉ tr) → run c s tr = some s' → s'.dpc = .dsending b := by
+  intro tr
+  induction tr with
+  | nil => intro s s' hpc _ h; simp [run] at h; subst h; exact hpc
+  | cons a rest ih =>
+    intro s s' hpc hno h
+    unfold run at h
+    cases hs : step c s a with
+    | none => simp [hs] at h
+    | some r =>
+      obtain ⟨s1, e⟩ := r
+      simp only [hs] at h
+      have ha : ∀ v, a ≠ .dresult v := fun v hv => hno v (by simp [hv])
+      exact ih s1 s' (step_dsending_stable c s s1 a e b hpc ha hs) (fun v hv => hno v (by simp [hv])) h
+
+/-- What a request for batch `b` answered with `v` makes observable. -/
+def outcomeEffs (b : List Nat) : Verdict → List Eff
+  | .ok => [.rx b 200, .sent b.length]
+  | .fail => [.rx b 500, .errors b.length, .dropped b.length]
+  | .err => [.errors b.length, .dropped b.length]
+
+/-- What of batch `b` reaches the Alertmanager under verdict `v`. -/
+def deliveredOf (b : List Nat) : Verdict → List Nat
+  | .err => []
+  | _ => b
+
+theorem outcome_effs (s : Loop) (b : List Nat) (v : Verdict) :
+    (s.outcome b v).2 = outcomeEffs b v ∧ (s.outcome b v).1.received = s.received ++ deliveredOf b v := by
+  cases v <;> simp [Loop.outcome, outcomeEffs, deliveredOf]
+
 end Prom.SendLoop
